@@ -1300,6 +1300,17 @@ func (in *Interp) doCall(fr *frame, c *ssa.CallCommon) Value {
 }
 
 func (in *Interp) invoke(recv Value, m *types.Func, args []Value) Value {
+	if len(in.stubbed) > 0 && in.stubbed[m.FullName()] {
+		// harness stub of an interface method (e.g. elliptic.Curve.Add): zero results
+		res := m.Type().(*types.Signature).Results()
+		switch res.Len() {
+		case 0:
+			return nil
+		case 1:
+			return in.zero(res.At(0).Type())
+		}
+		return in.zero(res)
+	}
 	iv, ok := recv.(IfaceV)
 	if !ok {
 		if _, isP := recv.(Poison); isP {
